@@ -328,4 +328,4 @@ mod standard_basis_tests {
 
 #[cfg(kani)]
 #[path = "/verif/kani/basis.rs"]
-mod verif_kani;
+pub(crate) mod verif_kani;
